@@ -205,6 +205,9 @@ class EmbeddingsCache:
         self._key_generator = key_generator
         self._cache_store = cache_store
         self._store_config = store_config or {}
+        # A prefix for the text the keys are generated from, e.g., the embedding model:
+        # the same text has different embeddings under different models.
+        self.key_prefix = ""
 
     @classmethod
     def from_dict(cls, d: Dict[str, str]):
@@ -232,7 +235,7 @@ class EmbeddingsCache:
 
     @get.register
     def _(self, text: str):
-        key = self._key_generator.generate_key(text)
+        key = self._key_generator.generate_key(self.key_prefix + text)
         log.info(f"Fetching key {key} for text '{text[:20]}...' from cache")
 
         result = self._cache_store.get(key)
@@ -259,7 +262,7 @@ class EmbeddingsCache:
 
     @set.register
     def _(self, text: str, value: List[float]):
-        key = self._key_generator.generate_key(text)
+        key = self._key_generator.generate_key(self.key_prefix + text)
         log.info(f"Cache miss for text '{text}'. Storing key {key} in cache.")
         self._cache_store.set(key, value)
 
@@ -307,6 +310,13 @@ def cache_embeddings(func):
             return await func(self, texts)
 
         embeddings_cache = EmbeddingsCache.from_config(self.cache_config)
+
+        # Indexes that use different embedding models can share a cache store
+        # (e.g., the same cache directory): their entries must not mix.
+        embedding_engine = getattr(self, "embedding_engine", None)
+        embedding_model = getattr(self, "embedding_model", None)
+        if embedding_engine or embedding_model:
+            embeddings_cache.key_prefix = f"{embedding_engine}/{embedding_model}:"
 
         cached_texts = {}
         uncached_texts = []
